@@ -4,7 +4,8 @@ never committed to /repo.
 
   overlaygen_events.py   -> /verif/.cache/overlay/events/overlay.json
 
-  * rewrites the imports "time" and "context" of the listed target files to the virtual-clock shims
+  * rewrites the imports "time" and "context" of the listed target files (C41: resource_limiter.go, C34:
+    unified_relay_state_machine.go) to the virtual-clock shims
     (virtual packages github.com/lavanet/lava/v5/utils/verifshim/events/{clock,time,context}, sources in
     /verif/engine/events/shim/*.go.txt);
   * environment: VERIF_OVERLAY_OUT (output root, default /verif/.cache/overlay), VERIF_SRC_OVERRIDE (a tree with
